@@ -7,15 +7,21 @@
 From Lal Require Import Common.LBytes Common.Res Common.LBytesRead Common.NAssoc Rtmp.RtmpChunk.
 Open Scope N_scope.
 
-Record rvariant := mk_rv {
+Record rvariant := mk_rv4 {
   rv_needed_remaining : bool; (* true: neededSize = min(MsgLen - Len, peer) always (fixed);
                                  false: MsgLen <= peer short-cut reads MsgLen (pinned) *)
   rv_agg_payload : bool;      (* true: aggregate sub-message payload handed to the callback (fixed);
                                  false: NewBufferRefBytes leaves wpos = 0, payload empty (pinned) *)
-  rv_agg_msid : bool          (* true: sub-messages carry the aggregate's message stream id (fixed);
+  rv_agg_msid : bool;         (* true: sub-messages carry the aggregate's message stream id (fixed);
                                  false: the 24-bit id of the sub-header (pinned) *)
+  rv_grow_received : bool     (* true (C04 memory repair): a header whose MsgLen is below what the message in
+                                 progress already holds is refused before anything is read, and the chunk body
+                                 is read in pieces of at most max(Len, initMsgLen) bytes, each flushed on arrival;
+                                 false: one io.ReadFull of the whole chunk body, length check after it *)
 }.
-Definition rv_fixed := mk_rv true true true.
+(* the three C08 switches, body read in one piece (the tree before the C04 memory repair) *)
+Definition mk_rv (a b c : bool) : rvariant := mk_rv4 a b c false.
+Definition rv_fixed := mk_rv4 true true true true.
 Definition rv_pinned := mk_rv false false false.
 
 (* rtmp.Stream.  The message buffer is kept reversed (newest byte first) with
@@ -177,10 +183,35 @@ Fixpoint agg_loop (fuel : nat) (v : rvariant) (parent : rtmp_header) (first : bo
   end.
 
 (* chunk data, and what happens when the message is complete *)
+(* rtmp.initMsgLen *)
+Definition init_msg_len : N := 4096.
+
+(* the chunk body read piece by piece (each piece at most max(Len, initMsgLen) bytes, flushed when it
+   arrived): what the message buffer holds when the input ends inside the body *)
+Fixpoint pieces_read (fuel : nat) (l : bytes) (left len : N) (racc : bytes) : bytes * N :=
+  match fuel with
+  | O => (racc, len)
+  | S f =>
+      if left =? 0 then (racc, len)
+      else
+        let p := N.min left (N.max len init_msg_len) in
+        match read_body l p racc with
+        | None => (racc, len)
+        | Some (racc', l') => pieces_read f l' (left - p) (len + p) racc'
+        end
+  end.
+
 Definition compose_body (v : rvariant) (st : cstate) (csid : N) (s2 : stream) (l3 : bytes) : step :=
+  if rv_grow_received v && (h_len (s_hdr s2) <? s_len s2) then Stop (put_stream csid s2 st) [] err_len_bigger
+  else
   let need := needed_size v (cs_chunk st) s2 in
   match read_body l3 need (s_rbuf s2) with
-  | None => Stop (put_stream csid s2 st) [] (short_err l3)
+  | None =>
+      let s2' := if rv_grow_received v
+                 then let '(racc, len) := pieces_read (S (length l3)) l3 need (s_len s2) (s_rbuf s2) in
+                      mk_stream (s_hdr s2) racc len (s_abs s2) (s_ts s2)
+                 else s2 in
+      Stop (put_stream csid s2' st) [] (short_err l3)
   | Some (rbuf, l4) =>
     let s3 := mk_stream (s_hdr s2) rbuf (s_len s2 + need) (s_abs s2) (s_ts s2) in
     if s_len s3 =? h_len (s_hdr s3) then
